@@ -540,17 +540,35 @@ class SCFG(Sized):
         # an arc through the inserted block instead.
         for name in predecessors:
             block = self.graph.pop(name)
-            jt = list(block.jump_targets)
-            if successors:
-                for s in successors:
-                    if s in jt:
-                        if new_name not in jt:
-                            jt[jt.index(s)] = new_name
-                        else:
-                            jt.pop(jt.index(s))
-            else:
-                jt.append(new_name)
-            self.add_block(block.replace_jump_targets(jump_targets=tuple(jt)))
+            self.add_block(self._reroute(block, new_name, successors))
+
+    @staticmethod
+    def _reroute(
+        block: BasicBlock, new_name: str, successors: List[str]
+    ) -> BasicBlock:
+        """Replace the arcs from block to any of successors by an arc to
+        new_name. Declared backedges are left alone. If the block is a region,
+        the exiting block inside it, which holds a copy of the same arcs, is
+        updated too (recursively).
+        """
+        jt = list(block._jump_targets)
+        if successors:
+            for s in successors:
+                if s in jt and s not in block.backedges:
+                    if new_name not in jt:
+                        jt[jt.index(s)] = new_name
+                    else:
+                        jt.pop(jt.index(s))
+        else:
+            jt.append(new_name)
+        block = block.replace_jump_targets(jump_targets=tuple(jt))
+        if isinstance(block, RegionBlock):
+            assert block.subregion is not None
+            exiting = block.subregion.graph.pop(block.exiting)
+            block.subregion.add_block(
+                SCFG._reroute(exiting, new_name, successors)
+            )
+        return block
 
     def insert_SyntheticExit(
         self,
